@@ -92,6 +92,10 @@ type TAOpts struct {
 	FullReset        bool
 	PostProcessCrash int  // 1: crash after post-processing; 2: after the files were moved, before _outs was rewritten
 	RestartAfterFail bool // after a failure: restart once (the injected fault is gone) and continue
+	// SlowJobs: comma separated substrings of job keys; a matching job is finished only when no other
+	// job is pending and the scheduler has nothing left to do without it (directed schedules: "the
+	// producer of the condition finishes last").  "" = off (the PRNG schedule is unchanged).
+	SlowJobs string
 }
 
 type TARun struct {
@@ -119,6 +123,7 @@ type TARun struct {
 	restartedAfterFail bool
 	ppCrashed          bool
 	stalls             int
+	slowQuiet          int
 }
 
 type stderrLogger struct{}
@@ -878,6 +883,12 @@ func (r *TARun) Run() {
 				return
 			}
 			idle = 0
+			continue
+		}
+		if r.Opts.SlowJobs != "" && len(r.Pending) > 0 {
+			if done := r.slowStep(&idle); done {
+				return
+			}
 			continue
 		}
 		doStep := len(r.Pending) == 0 || r.Rng.Float64() < r.Opts.StepBias
